@@ -647,6 +647,14 @@ func (c *client) loopWrite() {
 		switch c.filter.Do(req) {
 		case Continue:
 		case Stop:
+			// The request has been answered by a filter and won't be written,
+			// but the ones written before it may still sit in the buffer.
+			if len(c.pendingReqs) == 0 {
+				if err = c.enc.Flush(); err != nil {
+					c.logger.Warnf("loop write exit: %v", err)
+					return
+				}
+			}
 			continue
 		}
 
